@@ -209,10 +209,10 @@ func init() {
 			return sb.String(), int(i % nCtx)
 		}
 		strFam := &vf.Family{
-			Name:   "strings",
-			Bounds: fmt.Sprintf("every string of <=3 (quick) / <=4 (thorough) characters over %d escaping-relevant characters (quote, backslash, n, LF, TAB, CR, raw quote, U+029E, braces, ;, $, (, space, emoji, colon, BOM, NUL, and the tails of the escape sequences t, r, uXXXX, xXX, UXXXXXXXX, octal), not starting with U+029E, in %d contexts (bare, list, vector, map value, map key, set member, nested); plus JSON-looking strings", len(c06Chars), len(c06Contexts)),
-			Setup:  setup,
-			N:      func(t string) int64 { tier = t; return seqSpace{len(c06Chars), strLen()}.size() * nCtx },
+			Name:     "strings",
+			Bounds:   fmt.Sprintf("every string of <=3 (quick) / <=4 (thorough) characters over %d escaping-relevant characters (quote, backslash, n, LF, TAB, CR, raw quote, U+029E, braces, ;, $, (, space, emoji, colon, BOM, NUL, and the tails of the escape sequences t, r, uXXXX, xXX, UXXXXXXXX, octal), not starting with U+029E, in %d contexts (bare, list, vector, map value, map key, set member, nested); plus JSON-looking strings", len(c06Chars), len(c06Contexts)),
+			Setup:    setup,
+			N:        func(t string) int64 { tier = t; return seqSpace{len(c06Chars), strLen()}.size() * nCtx },
 			Describe: func(i int64) string { s, c := strOf(i); return strconv.Quote(s) + " " + c06Contexts[c].name },
 			Run: func(i int64, r *vf.Rec) {
 				s, c := strOf(i)
@@ -293,10 +293,10 @@ func init() {
 			return vg
 		}
 		valFam := &vf.Family{
-			Name:   "nested-values",
-			Bounds: "all data values of weight <=4 (quick) / <=5 (thorough) over 19 atoms/empty collections (incl. MinInt64, MaxInt64, backslash, JSON-looking string), lists/vectors of 1-3, maps of 1-2 entries and sets of 1-2 members over 6 keys",
-			Setup:  setup,
-			N:      func(t string) int64 { tier = t; return vgOf().Count(0, vW()) },
+			Name:     "nested-values",
+			Bounds:   "all data values of weight <=4 (quick) / <=5 (thorough) over 19 atoms/empty collections (incl. MinInt64, MaxInt64, backslash, JSON-looking string), lists/vectors of 1-3, maps of 1-2 entries and sets of 1-2 members over 6 keys",
+			Setup:    setup,
+			N:        func(t string) int64 { tier = t; return vgOf().Count(0, vW()) },
 			Describe: func(i int64) string { return vgOf().Unrank(0, i).String() },
 			Run: func(i int64, r *vf.Rec) {
 				v := vgOf().Unrank(0, i)
@@ -323,10 +323,10 @@ func init() {
 			return strings.Join(parts, " ")
 		}
 		textFam := &vf.Family{
-			Name:   "accepted-texts",
-			Bounds: fmt.Sprintf("every sequence of <=4 (quick) / <=5 (thorough) tokens over %d float-free tokens that READ accepts: READ(PRINT(READ(t))) = READ(t)", len(c06TextTokens)),
-			Setup:  setup,
-			N:      func(t string) int64 { tier = t; return seqSpace{len(c06TextTokens), tLen()}.size() },
+			Name:     "accepted-texts",
+			Bounds:   fmt.Sprintf("every sequence of <=4 (quick) / <=5 (thorough) tokens over %d float-free tokens that READ accepts: READ(PRINT(READ(t))) = READ(t)", len(c06TextTokens)),
+			Setup:    setup,
+			N:        func(t string) int64 { tier = t; return seqSpace{len(c06TextTokens), tLen()}.size() },
 			Describe: func(i int64) string { return strconv.Quote(textOf(i)) },
 			Run: func(i int64, r *vf.Rec) {
 				t := textOf(i)
@@ -359,9 +359,9 @@ func init() {
 		}
 		return &vf.Check{
 			ID: "C06", Level: "model_checking",
-			Rule: "every data value of the bounded spaces is printed by the real printer, read back by the real reader (and through read-string/pr-str) and compared with the original by the model's independent structural equality; every accepted float-free text of the token space is read, printed and re-read; non-trivial = the case was a well-formed value / an accepted text",
+			Rule:        "every data value of the bounded spaces is printed by the real printer, read back by the real reader (and through read-string/pr-str) and compared with the original by the model's independent structural equality; every accepted float-free text of the token space is read, printed and re-read; non-trivial = the case was a well-formed value / an accepted text",
 			Assumptions: []string{"valid UTF-8 strings only; symbol/keyword spellings restricted to what the scanner's identifier rule returns as one token", "floats are out of scope as stated by the property"},
-			Families: []*vf.Family{strFam, idFam, valFam, textFam},
+			Families:    []*vf.Family{strFam, idFam, valFam, textFam},
 		}
 	})
 }
